@@ -441,7 +441,12 @@ def run_case(case: dict[str, Any]) -> dict[str, Any]:
                 pair_reqs = [r for r in reqs if r.plural == last['plural'] and r.ns in (None, ns)]
                 covered = any(x.plural == last['plural'] and x.ns in (None, ns) and x.opened <= last['t'] and (x.closed_at is None or x.closed_at > last['t']) for x in streams)
                 nxt = next((r for r in pair_reqs if r.t >= last['t'] - 1e-9), None)
-                mech = 'deletion-missed-across-relisting' if (not covered and nxt is not None and nxt.kind == 'list') else 'deletion-never-reached-processing'
+                # ... or a stream was open, but it broke (410, disconnect) before the client could read the DELETED line off the wire, and watching
+                # went on with a fresh listing: to the operator that is the same situation -- the deletion fell into a gap that a listing cannot show
+                read = any(typ == 'DELETED' and u == uid for x in streams if x.plural == last['plural'] for typ, u, _, _ in x.resp.fed[:x.resp.consumed])
+                nxt_after = next((r for r in pair_reqs if r.t >= last['t'] - 1e-9 and r.kind in ('list', 'watch')), None)
+                gap = not read and nxt_after is not None and nxt_after.kind == 'list'
+                mech = 'deletion-missed-across-relisting' if ((not covered and nxt is not None and nxt.kind == 'list') or gap) else 'deletion-never-reached-processing'
                 viol.append({'mech': mech, 'msg': f"{last['plural']} {ns}/{last['body']['metadata']['name']} ({uid}), shown to the operator at "
                                                   f"t={shown[0]['t']}, was deleted at t={last['t']}: no DELETED event ever reached the event handler"
                                                   + (f"; no watch was open then, and watching went on with the listing at t={nxt.t}" if mech.startswith('deletion-missed') else ''), 'witness': None})
